@@ -5,6 +5,7 @@ from scipy.sparse import issparse
 
 from skglm.solvers.base import BaseSolver
 from skglm.utils.anderson import AndersonAcceleration
+from skglm import _verif
 
 
 class GramCD(BaseSolver):
@@ -96,10 +97,15 @@ class GramCD(BaseSolver):
             accelerator = AndersonAcceleration(K=5)
             w_acc = np.zeros(n_features)
             grad_acc = np.zeros(n_features)
+        if _verif.ON:
+            _verif.emit("init", solver=self, X=X, y=y, datafit=datafit,
+                        penalty=penalty, w=w, Xw=None, grad=grad)
 
         for t in range(self.max_iter):
             # check convergences
             stop_crit = np.max(opt)
+            if _verif.ON:
+                _verif.emit("outer", t=t, stop_crit=stop_crit, w=w, Xw=None, grad=grad)
             if self.verbose:
                 p_obj = (0.5 * w @ (scaled_gram @ w) - scaled_Xty @ w +
                          scaled_y_norm2 + penalty.value(w))
@@ -115,6 +121,8 @@ class GramCD(BaseSolver):
 
             # inplace update of w, grad
             opt = _gram_cd_epoch(scaled_gram, w, grad, penalty, self.greedy_cd)
+            if _verif.ON:
+                _verif.emit("epoch", t=t, epoch=0, w=w, Xw=None, grad=grad)
 
             # perform Anderson extrapolation
             if self.use_acc:
@@ -129,11 +137,16 @@ class GramCD(BaseSolver):
                     if p_obj_acc < p_obj:
                         w[:] = w_acc
                         grad[:] = grad_acc
+                if _verif.ON:
+                    _verif.emit("aa", t=t, epoch=0, is_extrap=is_extrapolated, w=w,
+                                Xw=None, grad=grad, w_acc=w_acc, Xw_acc=None)
 
             # store p_obj
             p_obj = (0.5 * w @ (scaled_gram @ w) - scaled_Xty @ w + scaled_y_norm2 +
                      penalty.value(w))
             p_objs_out.append(p_obj)
+            if _verif.ON:
+                _verif.emit("record", t=t, p_obj=p_obj, w=w, Xw=None, grad=grad)
         return w, np.array(p_objs_out), stop_crit
 
     def custom_checks(self, X, y, datafit, penalty):
